@@ -5,7 +5,7 @@
    column that is 0 in the construction years.  Where Python raises IndexError the model returns None.
    Executable definitions only; lemmas are in Proofs/ReportProofs.v. *)
 From Coq Require Import String Ascii QArith ZArith List Bool.
-From Verif Require Import Model.Fmt.
+From Verif Require Import Model.Fmt Model.Float.
 Import ListNotations.
 
 Inductive fkind : Type := KF | KFc | KE | KEu | KG.
@@ -19,6 +19,7 @@ Inductive seg : Type :=
 (* what fills a segment *)
 Inductive cell : Type :=
 | Num (v : fval)               (* float / int under a numeric format spec *)
+| NumE (e : sexpr)             (* a figure computed from snapshot quantities by the float model (Model/Float.v) *)
 | Txt (s : string)             (* a string value (label, unit, option name) *)
 | IntV (z : Z)                 (* str(int) *)
 | ReprV (v : fval)             (* str(float) *)
@@ -39,7 +40,7 @@ Definition render_str (c : cell) : option string :=
   | IntV z => Some (py_int z)
   | ReprV v => Some (py_repr v)
   | RoundV v n => Some (py_round_repr v n)
-  | Num _ => None
+  | Num _ | NumE _ => None
   end.
 
 Definition cat (a : string) (b : option string) : option string :=
@@ -52,6 +53,10 @@ Fixpoint render_line (segs : list seg) (vals : list cell) : option string :=
   | Fld k w p :: r =>
       match vals with
       | Num v :: vs => cat (render_fld k w p v) (render_line r vs)
+      | NumE e :: vs => match seval None e with
+                        | Some x => cat (render_fld k w p (fl_fval x)) (render_line r vs)
+                        | None => None     (* outside the float model: the harness falls back to its own value *)
+                        end
       | _ => None
       end
   | Str :: r =>
@@ -86,6 +91,22 @@ Definition table_row (segs : list seg) (off k : nat) (cols : list (list fval)) (
 Definition table (n off k : nat) (segs : list seg) (cols : list (list fval)) : option (list string) :=
   mapM (table_row segs off k cols) (seq 0 n).
 
+(* the same table with every column an EXPRESSION over snapshot series, evaluated by the float model at the row's
+   index i*k (SRow reads its series there): PT[i*k]/PT[0], X[i]/1E6, (H0 - R[i])*100/H0, ... *)
+Definition erow_cells (off k : nat) (cols : list sexpr) (i : nat) : option (list cell) :=
+  match mapM (seval (Some (i * k)%nat)) cols with
+  | Some vs => Some (year_cell (i + off) :: map (fun x => Num (fl_fval x)) vs)
+  | None => None   (* IndexError, or outside the float model *)
+  end.
+Definition etable_row (segs : list seg) (off k : nat) (cols : list sexpr) (i : nat) : option string :=
+  match erow_cells off k cols i with
+  | Some cs => render_line segs cs
+  | None => None
+  end.
+Definition etable (n off k : nat) (segs : list seg) (cols : list sexpr) : option (list string) :=
+  mapM (etable_row segs off k cols) (seq 0 n).
+Definition plain_col (c : list fl) : sexpr := SRow (ALeaf c).
+
 (* OPEX column of the revenue & cash-flow profile: 0.0 in the cy construction years, then the O&M cost *)
 Definition opex_col (cy n : nat) (coam : fval) : list fval := repeat (Fin 0) cy ++ repeat coam n.
 
@@ -107,6 +128,14 @@ Definition chk_line (segs : list seg) (vals : list cell) (actual : string) : boo
 
 Definition chk_table (n off k : nat) (segs : list seg) (cols : list (list fval)) (actual : list string) : bool :=
   match table n off k segs cols with Some rows => strs_eqb rows actual | None => false end.
+
+Definition chk_etable (n off k : nat) (segs : list seg) (cols : list sexpr) (actual : list string) : bool :=
+  match etable n off k segs cols with Some rows => strs_eqb rows actual | None => false end.
+(* is the line / table inside the model at all (second pass of the correspondence: fall back or disagree?) *)
+Definition line_defined (segs : list seg) (vals : list cell) : bool :=
+  match render_line segs vals with Some _ => true | None => false end.
+Definition etable_defined (n off k : nat) (segs : list seg) (cols : list sexpr) : bool :=
+  match etable n off k segs cols with Some _ => true | None => false end.
 
 Definition fval_eqb (a b : fval) : bool :=
   match a, b with
